@@ -1193,6 +1193,9 @@ def inline_new_constants(tree: ast.Module, modname: str) -> int:
             counts[tg.id] = counts.get(tg.id, 0) + 1
             if isinstance(v, ast.Constant) and isinstance(v.value, (str, int, float)) and not isinstance(v.value, bool) and tg.id not in known:
                 cands[tg.id] = v
+            # ... or to a tuple of such literals (immutable, so every reader sees the same value)
+            if isinstance(v, ast.Tuple) and v.elts and all(isinstance(e_, ast.Constant) and isinstance(e_.value, (str, int, float)) and not isinstance(e_.value, bool) for e_ in v.elts) and tg.id not in known:
+                cands[tg.id] = v
     for x in ast.walk(tree):
         if isinstance(x, ast.Global):
             for nm in x.names:
